@@ -34,7 +34,8 @@ from geckolib.const import GeckoConstants as K  # noqa: E402
 
 SNAPS = ["default.snapshot", "inYT-all off-2020-10-23 18_00_45.snapshot", "inYJ-All off-2020-12-18 11_24_09.snapshot",
          "inYT-whirlcare-prestige-all-off-2022-02-14 09_04_44.snapshot"]
-KEYPAD = {K.KEYPAD_LIGHT: "UdLi", K.KEYPAD_BLOWER: "BL", K.KEYPAD_WATERFALL: "Waterfall"}
+KEYPAD = {16: "UdLi", 6: "BL", 23: "Waterfall"}  # keypad ids of the in.touch2 protocol (the harness's own copy)
+WATERCARE_MODE_STRING = ["Away From Home", "Standard", "Energy Saving", "Super Energy Saving", "Weekender"]
 
 
 class Spa(SimPeer):
@@ -394,12 +395,12 @@ def _rig_job(snapname):
                 note(("read-back", f"setpoint {t}{unit}: heater reads {h.target_temperature}"), "heater setpoint")
     # ---- watercare ----------------------------------------------------------------------
     wc = fac.water_care
-    for cur, req in itertools.product(range(5), list(range(5)) + list(K.WATERCARE_MODE_STRING)):
+    for cur, req in itertools.product(range(5), list(range(5)) + list(WATERCARE_MODE_STRING)):
         rig.peer.wc_mode = cur
         wc.change_watercare_mode(cur)
         n += 1
         cmds, wire, err = rig.command(lambda: wc.async_set_mode(req))
-        want = req if isinstance(req, int) else K.WATERCARE_MODE_STRING.index(req)
+        want = req if isinstance(req, int) else WATERCARE_MODE_STRING.index(req)
         what = "watercare"
         if err:
             note(("engine", err), what)
@@ -636,10 +637,10 @@ def _threaded_job(snapname):
                 note(("setpoint", f"setpoint {t}{unit}: commands {cmds}, expected raw {exp_raw} at {fs.pos}"), "heater")
             elif not (192 <= cmds[0][1] <= 255):
                 note(("sequence", f"setpoint: SPACK sequence {cmds[0][1]} outside 192..255"), "heater")
-    for req in list(range(5)) + list(K.WATERCARE_MODE_STRING):
+    for req in list(range(5)) + list(WATERCARE_MODE_STRING):
         n += 1
         cmds = run_cmd(lambda: fac.water_care.set_mode(req))
-        want = req if isinstance(req, int) else K.WATERCARE_MODE_STRING.index(req)
+        want = req if isinstance(req, int) else WATERCARE_MODE_STRING.index(req)
         if len(cmds) != 1 or cmds[0][0] != "setwc" or cmds[0][3] != want or cmds[0][4]:
             note(("watercare", f"watercare {req!r}: commands {cmds}"), "watercare")
         elif not (1 <= cmds[0][1] <= 191):
